@@ -1,6 +1,8 @@
 package core
 
 import (
+	"fmt"
+
 	"github.com/jsightapi/jsight-schema-core/rules/enum"
 
 	"github.com/jsightapi/jsight-api-core/directive"
@@ -30,6 +32,9 @@ func (core *JApiCore) buildRule(d *directive.Directive) *jerr.JApiError {
 	}
 
 	name := d.NamedParameter("Name")
+	if name == "" {
+		return d.KeywordError(fmt.Sprintf("%s (%s)", jerr.RequiredParameterNotSpecified, "Name"))
+	}
 
 	r := enum.New(name, d.BodyCoords.Read())
 	if err := r.Check(); err != nil {
